@@ -22,9 +22,9 @@ RULE = ("cover-labelled networks of 1-5 motifs (edge, path, triangle, 4-cycle, d
         "9-12 motifs); labels up to 1000; malformed: the empty network. Non-trivial = at "
         "least two motifs share a vertex, iterations >= 1 and some 0 < phi < 1; distinct by (motifs, order, T, phis)")
 EXHAUSTIVE = {"quick": False, "thorough": False}
-EXPLANATION = ("all C17 theorems are general (any network, any sweep order, any T): model = spec when the motif "
-               "equations are exact (checked per network by c17_check_motifs; proved for all motifs on <= 5 vertices "
-               "labelled 0..k-1 in C15), bounds, value 0 at phi = 0, monotonicity in phi (C17_monotone), history independence, "
+EXPLANATION = ("all C17 theorems are general (any network, any sweep order, any T): model = spec for EVERY well-formed "
+               "network, motifs of any size (C17_model_is_spec_unconditional, from the general C15 identity; the per-network "
+               "polynomial check c17_check_motifs is still run as an independent check), bounds, value 0 at phi = 0, monotonicity in phi (C17_monotone), history independence, "
                "soundness of the checker. "
                "PARTIAL: that the iteration converges to THE fixed point is not proved (only the T-th Gauss-Seidel "
                "iterate from 0.5 is characterised; C17_full keeps the statement).")
@@ -43,9 +43,13 @@ LEVEL_TEXT = (
     "coq/Props/C17.v, all GENERAL (every network, sweep order, iteration count T): C17_formula_partial - the returned value is "
     "1 - average over vertices of the product over the vertex's motifs of H_T, H_T the T-th Gauss-Seidel iterate from "
     "0.5 with explicit update equation; C17_others_semantic - under the cover precondition (cover_okb, checked per case) "
-    "the products run over all OTHER motifs of each member, each once; C17_model_is_spec - if every (motif, focal) equation of the network is the "
-    "exact expectation (decided by motifs_okb, a polynomial identity check; true for all motifs <= 5 vertices by C15) "
-    "the model equals the specification iterate; C17_bounds - 0 <= value <= 1 for 0 <= phi <= 1; C17_zero - value 0 at "
+    "the products run over all OTHER motifs of each member, each once; C17_model_is_spec_unconditional - for every "
+    "well-formed network (net_okb: swept end points are vertices of their motif, motif graphs are simple graphs; motifs of "
+    "ANY size) the model (per-motif equation = the automated equation) equals the specification iterate (per-motif "
+    "equation = the exact expectation), by the general C15 identity; C17_model_is_spec / _checked - the same from the "
+    "hypothesis that every (motif, focal) equation is exact / from the polynomial identity check motifs_okb (kept, "
+    "independent); C17_object_is_spec / C17_wire_model_is_spec - one object queried repeatedly, and the extracted "
+    "reduced-fraction model, return the specification's values for every well-formed network; C17_bounds - 0 <= value <= 1 for 0 <= phi <= 1; C17_zero - value 0 at "
     "phi = 0 for every T >= 1; C17_monotone - 0 <= phi <= phi' <= 1 implies value(phi) <= value(phi') for every T; C17_history - any sequence of queries on one object (evaluator caches persist, _H_tau is "
     "reset) returns what fresh objects return; C17_wire_model - the reduced-fraction executable model equals the "
     "model; C17_check_sound. PARTIAL (C17_full kept as Definition): convergence of the iteration to the fixed point is "
